@@ -99,7 +99,7 @@ def run_simulate(model, opts=None, init_state=True, init_log=True, abort_at=None
     ev, ret = call_recorded(model, lambda: model.project.simulate(**kw), abort_at=abort_at)
     o2 = copy.deepcopy(o)
     o2["initState"], o2["initLog"] = init_state, init_log
-    return {"op": "simulate", "opts": o2, "args": {"cmp": 0}, "obs": {}, "ev": annotate(ev), "ret": ret,
+    return {"op": "simulate", "opts": o2, "args": {"cmp": 0, "plainTasks": False}, "obs": {}, "ev": annotate(ev), "ret": ret,
             "final": snapshot(model)}
 
 
@@ -112,6 +112,8 @@ def run_case(spec):
     """Execute one case specification on the real code; returns the case record."""
     cfg = spec["cfg"]
     kind = spec["kind"]
+    if kind == "simulate" and spec.get("light"):
+        return run_history({"kind": "history", "cfg": cfg, "ops": [{"op": "simulate", "light": True}]})
     if kind == "simulate":
         m = Model(cfg)
         runs = [run_simulate(m)]
